@@ -18,6 +18,7 @@ type L struct {
 	Alias  string // non-empty: this node is an alias *name (Kind ignored)
 	Head   string // comment texts (without '#')
 	Line   string
+	Tight  bool // the foot comment follows the entry directly (no blank line before it): the form the parser reads as a foot comment of a middle entry
 	Foot   string
 	Keys   []*L
 	Kids   []*L
@@ -323,7 +324,9 @@ func renderEntries(sb *strings.Builder, l *L, indent int) {
 			renderValueAfter(sb, pad+"-", c, indent)
 		}
 		if c.Foot != "" {
-			sb.WriteString("\n")
+			if !c.Tight {
+				sb.WriteString("\n")
+			}
 			comment(sb, pad, c.Foot)
 			sb.WriteString("\n")
 		}
